@@ -22,7 +22,8 @@ META = {
         "resolves in its MRO. Predicate and duplicate-method semantics are "
         "not decided."
         ' Also: swapped / dropped option forwarding in the PLSSDesc wrappers, out-parameter dicts are told from None by identity, TRS equality / hashing (shared with C12), parallel clause purity of TRS.is_error.'
-        " Round 7: no silent de-duplication on insert; unverified bulk copy only for the container's own class (any spelling of the extend); is_error / is_undef tables; TRS.__eq__ true only for a TRS."),
+        " Round 7: no silent de-duplication on insert; unverified bulk copy only for the container's own class (any spelling of the extend); is_error / is_undef tables; TRS.__eq__ true only for a TRS."
+        ' Round 8: __setitem__ stores a verified iterable only under a slice; unpack_group goes into nested dicts; a first-element type test does not decide a bulk extend.'),
     'families': ['SINK', 'EXC', 'TBL', 'FORWARD', 'DEADPARAM', 'SIB-DEFAULTS'],
 }
 
